@@ -3,6 +3,7 @@
     Every bound below holds at every moment of every run over an arbitrary source — finite of any
     length or endless — and depends only on the buffer size / thread count. *)
 Require Import Sedpack.Model.Base Sedpack.Generated.GenIter Sedpack.Model.Iter Sedpack.Proofs.IterProofs Sedpack.Proofs.ChainProofs.
+Require Import Sedpack.Proofs.BatchProofs Sedpack.Model.PipeBase Sedpack.Generated.GenPipeline.
 Require Import Sedpack.Generated.GenLazyPool Sedpack.Model.LazyPool Sedpack.Proofs.LazyPoolInv Sedpack.Proofs.LazyPoolBound.
 From Coq Require Import Permutation.
 
@@ -54,6 +55,34 @@ Theorem c14_sync_interface_readahead :
     (c_opened path ex psrc (sb_src st) - 1) * m <= length (sb_out st) + b.
 Proof. exact sync_readahead. Qed.
 Print Assumptions c14_sync_interface_readahead.
+
+(** The unshuffled concurrent reader (batches of T paths through executor.map, the next batch taken only when the previous one has been
+    handed over; any stream of paths, finite or endless): at every moment the shard files opened exceed those accounted for by the
+    examples handed over by at most T:  (opened - T) * m <= yielded. *)
+Theorem c14_ordered_concurrent_readahead :
+  forall (path ex : Type) (psrc : @source path) (read : path -> list ex) (T m : nat), (forall p, m <= length (read p)) ->
+  forall (n : nat) (s0 : s_state psrc) (s : bstate path ex psrc),
+    after (batch_source path ex psrc read T) n (batch_init path ex psrc s0) = Some s -> (b_opened path ex psrc s - T) * m <= n.
+Proof. exact batch_readahead. Qed.
+Print Assumptions c14_ordered_concurrent_readahead.
+
+(** ... and that machine is the reader: over a finite list of paths it delivers what the composition regenerated from
+    as_numpy_iterator_concurrent (shuffle = 0) delivers. *)
+Theorem c14_batch_machine_is_the_ordered_reader :
+  forall (path ex : Type) (read : path -> list ex) (process : ex -> ex) pickA permA pickB pool_perm (T : nat) (l : list path),
+  1 <= T -> (forall p, 1 <= length (read p)) ->
+  drain (batch_source path ex list_source read T) (S (length (concat (map read l)))) (batch_init path ex list_source l)
+  = anc path ex read process pickA permA pickB pool_perm 0 T false l.
+Proof. exact batch_machine_refines_anc. Qed.
+Print Assumptions c14_batch_machine_is_the_ordered_reader.
+
+(** The unshuffled async reader is the plain lazy chain of shards: one file beyond those used up. *)
+Theorem c14_ordered_async_readahead :
+  forall (path ex : Type) (psrc : @source path) (read : path -> list ex) (m : nat), 1 <= m -> (forall p, m <= length (read p)) ->
+  forall (n : nat) (s0 : s_state psrc) (s : cstate path ex psrc),
+    after (chain_source path ex psrc read) n (chain_init path ex psrc s0) = Some s -> (c_opened path ex psrc s - 1) * m <= n.
+Proof. exact chain_readahead. Qed.
+Print Assumptions c14_ordered_async_readahead.
 
 Theorem c14_nonvacuous :
   let st := sb_run (cycle_source [10; 20; 30] 0) (lcg_pick 1) (@rev nat) 4 50 (sb_init (cycle_source [10; 20; 30] 0) 0) in
